@@ -114,15 +114,18 @@ chk("C19", "static analysis: MIR decision tables of macro expansions in a witnes
     "(so an eager/lazy slip or a wrong payload is a mismatch for all values). min!/max!/_by/_by_key are decided as operand "
     "tables over Less/Equal/Greater (ties: first for min, second for max). try_rebind!/rebind_if_ok! must be accepted by "
     "rustc for arities 1..6 with place / let / typed-let / `_` positions and each position must receive component i of the Ok "
-    "payload (argument provenance of a sink call), Err must propagate / skip. A token lint over the macro definitions "
+    "payload (argument provenance of a sink call), Err must propagate / skip; components must be assigned left to right "
+    "(ORD-REBIND: the same place at positions k and k+1 must end up holding component k+1, every adjacent pair of every "
+    "arity, both macros). A token lint over the macro definitions "
     "rejects fragment specifiers inside transcribers (this found the arity>=3 defect).",
     "Trusted: rustc's macro expansion and MIR for the witness crate; marker functions are opaque (`#[inline(never)] loop{}`), "
     "so results hold for every closure. The accept family is sampled per arity in the quick tier (uniform + mixed kinds).",
     cat="other")
 chk("C17", "static analysis: compile-reject / compile-accept witness programs with matched diagnostics, compile_error! inventory",
-    "A generated family of 75 reject programs, each with an accept twin differing only in the offending element, is compiled "
+    "A generated family of about 105 reject programs, each with an accept twin differing only in the offending element, is compiled "
     "by the real stable rustc against the current konst: destructure! x {Drop type (braced/tuple struct, generic, path/type "
-    "form, +-annotation), reference (4 shapes, +-annotation), wrong field/element count (6 shapes), `..` rest (3 shapes)}, "
+    "form, +-annotation), reference ({&, &mut} x 10 shapes incl. generic type-form / turbofish / self:: paths x +-annotation), "
+    "wrong field/element count (6 shapes), `..` rest (3 shapes)}, "
     "iterator DSL x {double reversal for every reverser and all three macros, unknown methods, consumer in adapter-only "
     "macro, arguments to argument-less methods, argument-shape guards}, parser_method! x {non-literal pattern for all six "
     "methods, missing default, branch after default, unknown method}. A reject must fail with the guard's own diagnostic "
